@@ -3,17 +3,20 @@
 sub-agent (demo passes on clean tree, fails with the change, baseline suite intact), run the named checks
 against it in a scratch copy, and keep it under /verif/seeded/<PID>/<m>/ with the outcome in meta.json."""
 import json, os, shutil, subprocess, sys
-pid, m, checks = sys.argv[1], sys.argv[2], sys.argv[3:]
-src = f"/tmp/seedwork_md/{pid}-out/{m}"
+args = [a for a in sys.argv[1:] if not a.startswith("--round")]
+rnd = next((a.split("=")[1] for a in sys.argv[1:] if a.startswith("--round=")), "")
+pid, m, checks = args[0], args[1], args[2:]
+src = f"/tmp/seedwork_md/{pid}-out{rnd}/{m}"
+name = (f"r{rnd}" if rnd else "") + m
 if not os.path.exists(src):
-    src = f"/verif/seeded/{pid}/{m}"
+    src = f"/verif/seeded/{pid}/{name}"
 r = subprocess.run(["python3", "/verif/tools/try_mutant.py", src, f"/tmp/seedwork_md/{pid}"] + checks, capture_output=True, text=True)
 d = json.loads(r.stdout.strip().splitlines()[-1])
 ok = d.get("demo_clean") == 0 and d.get("demo_mutated") == 1 and d.get("baseline_lost") == 0
-dst = f"/verif/seeded/{pid}/{m}"
+dst = f"/verif/seeded/{pid}/{name}"
 summary = {k: dict(detected=v["exit"] == 1, with_failing_input=bool(v["lines"]) and "no-failing-input-found" not in v["lines"][0],
                    replay=v["replay"], secs=v["secs"]) for k, v in d.get("checks", {}).items()}
-print(pid, m, "confirmed" if ok else "NOT CONFIRMED", json.dumps(summary)[:600])
+print(pid, name, "confirmed" if ok else "NOT CONFIRMED", json.dumps(summary)[:600])
 if ok:
     os.makedirs(dst, exist_ok=True)
     if os.path.abspath(src) != os.path.abspath(dst):
